@@ -40,6 +40,13 @@ metacharacter into a live one: `\x2a` becomes `*`. -/
 theorem undoX_makes_metacharacters_live :
     undoX Gen.Xsd.hexClassX [97, 92, 120, 50, 97, 98] = .ok [97, 42, 98] := by decide
 
+/-- **Finding C13-F1 (negation witness).** The preparation of a pattern for the external
+intersection (`_undo_escaping_backslash_x_u_and_U_in_pattern`, used when a value has two or more
+patterns) does the same: `a\x2ab` and `a\u002ab` become `a*b`, in which the star is a quantifier. -/
+theorem undoXuU_makes_metacharacters_live :
+    undoXuU Gen.Xsd.hexClassXuU [97, 92, 120, 50, 97, 98] = .ok [97, 42, 98] ∧
+    undoXuU Gen.Xsd.hexClassXuU [97, 92, 117, 48, 48, 50, 97, 98] = .ok [97, 42, 98] := by decide
+
 /-- *skeleton*: `_translate_pattern` is parse → find non-XML characters → remove anchors → render
 with the XSD renderer; in particular no textual un-escaping precedes the parser. -/
 theorem pipeline_shape : Gen.Xsd.translateSteps =
